@@ -199,7 +199,7 @@ def w_ppm_dsp(ctx, rng, i):
 
 
 def w_counter(ctx, rng, i):
-    n = core.long_or(rng, i, int(rng.choice([1, 2, 10, 100, 1000, 4096])), longs=(40000, 70001))
+    n = core.long_or(rng, i, int(rng.choice([1, 2, 10, 100, 1000, 4096])), longs=(40000, 70001), huge=False)
     tx = rng.integers(0, 2, n)
     k = int(rng.integers(0, n + 1))
     idx = rng.permutation(n)[:k]
